@@ -280,6 +280,9 @@ CHECKS = {
 
 # later extensions of generators and oracles (kept apart so that each addition reads as one sentence)
 RULE_ADDENDA = {
+    "C07": "Sequence faults (even, replayed, jumping, restarted numbers) are aimed at sessions that are in the middle of an exchange one time in eight.",
+    "C10": "Odd START packets (any action/type/service/minor combination) are mostly logins, optionally without data, and three times in four are followed by what a prompted client would send: the user name if it was missing, then the right password. Authenticator variants include a hash option that is a well-formed hash with something behind it.",
+    "C15": "A third configuration C (secret configurations renamed so that nothing can be built, no filters) takes part in the reloads, and every lookup round also probes 10.1.9.7, which A and B deny and C cannot serve: any answer but a refusal mixes two configurations.",
     "C19": "Thorough adds native coverage-guided fuzzing (FuzzC19Seen): the bytes the server sees after removing its pad are the fuzz input, seeded with well-formed requests one or two bytes short or long; same classifier oracle.",
     "C01": "Every value is also built the way callers build it - New<Type>(Set<Field>(...)...) for the header and the seven bodies - and must encode (bytes and error) exactly like the struct literal. Thorough adds FuzzC01Rapid: the same property with the generators' choices taken from a coverage-guided fuzzer's byte string (rapid.MakeFuzz).",
     "C02": "Over-long argument lists also come in a sparse form: 256+ arguments, each as short as the type allows. Thorough adds native fuzzing: FuzzC02DecodeFirst (any bytes, any codec, decode-first oracle) and FuzzC02Rapid (encode-first property driven by the fuzzer through rapid.MakeFuzz).",
@@ -291,8 +294,8 @@ RULE_ADDENDA = {
     "C11": "Command arguments include values that merely end in the <cr>/<CR> line-ending marker.",
     "C12": "One request in three is sent on the session id of the request before it with the next client sequence number (the updates of a task), naming any user. The text pool includes literal escape-like sequences (backslash-u003c, backslash-u0026, backslash-n, double backslash). One case in four also registers the syslog accounter on a unixgram socket owned by the harness (users with a SYSLOG accounter become accountable; the record must be queued on the socket when the reply arrives, exactly once, and decode to the request).",
     "C18": "Every log call is also passed to the reference logger of cmds/server/log at a drawn level (10/20/30/31/100) writing to a buffer, which is searched for the tokens as well.",
-    "C16": "The real-watcher sub-test also replaces the file atomically (rename over the path) and then edits it in place; if nothing is published the verdict is taken from the process' inotify watch list (/proc/self/fdinfo), not from the clock.",
-    "C17": "One scripted packet in three makes its handler register a continuation, so that a session is still open when the connection ends.",
+    "C16": "Half of the histories collect lazily: a document a fresh loader refuses is fed while the previous configuration is still uncollected on the channel, and that configuration must still be there afterwards. The real-watcher sub-test also replaces the file atomically (rename over the path) and then edits it in place; if nothing is published the verdict is taken from the process' inotify watch list (/proc/self/fdinfo), not from the clock.",
+    "C17": "One scripted packet in three makes its handler register a continuation, so that a session is still open when the connection ends. In one case in four whoever cancels also closes the listener, so the server's own Close of it reports an error.",
 }
 for _p, _t in RULE_ADDENDA.items():
     CHECKS[_p]["rule"] += " Also: " + _t
